@@ -20,9 +20,12 @@ import (
 
 // Outcome is what the script does at a step.
 type Outcome struct {
-	Kind string `json:"kind"`           // ok | reply | drop | stall | garbage | dropafter (reply then close)
+	Kind string `json:"kind"`           // ok | reply | drop | stall | garbage | dropafter (reply then close) | late
 	Code int    `json:"code,omitempty"` // for reply / dropafter
 	Text string `json:"text,omitempty"` // reply text (a tag naming the step is appended)
+	// DelayMS (kind "late"): the ordinary positive reply of the step is sent, but only after that many
+	// milliseconds (a tarpitting or greylisting server that answers after the client's patience ran out).
+	DelayMS int `json:"delay_ms,omitempty"`
 }
 
 // OK is the default outcome.
@@ -535,6 +538,11 @@ func (s *Server) serve(rawConn net.Conn, implicitTLS bool, sess *Session) {
 			case "garbage":
 				c.reply("this is not an SMTP reply")
 				return 0
+			case "late":
+				select {
+				case <-time.After(time.Duration(o.DelayMS) * time.Millisecond):
+				case <-s.release:
+				}
 			case "reply", "dropafter":
 				txt := formatReply(o.Code, o.Text, step)
 				sess.Replies[step] = txt
